@@ -25,6 +25,11 @@ TSun == /\ IsEvent("SunVec")
 TInc == /\ IsEvent("Incidence")
         /\ LET d == A(Ev.decl)  w == A(Ev.hour)  p == A(Ev.lat)  t == A(Ev.tilt)  a == A(Ev.az) IN
            /\ Chk("IncidenceAngleIsFinite", Fin(Ev.gotcos))
+           \* the model's own outward normal (observed through the back-face test of a window in such a wall, nothing around):
+           \* sunlit exactly when the cosine of the incidence angle is at least 0.01 (band 0.008 - 0.012 left undecided)
+           /\ Chk("ModelNormalIsTheNormalOfTheIncidenceAngle",
+                  ("front" \in DOMAIN Ev /\ Ev.front >= 0 /\ Fin(Ev.gotcos) /\ SunUp(d, w, p) * 100 > SunDen(d, w, p) * 2) =>   \* sun above the horizon
+                     ((Ev.gotcos >= 120 => Ev.front = 1) /\ (Ev.gotcos <= 80 => Ev.front = 0)))
            /\ Chk("IncidenceIsAngleBetweenSunAndOutwardNormal",
                   Fin(Ev.gotcos) => Near4(Ev.gotcos, CosIncNum(d, w, p, t, a), SunDen(d, w, p) * NormDen(t, a), 12))
 \* one day of the weather file, hour by hour (0.1 W/m2): horizontal surface = input when the sun is at least
